@@ -78,6 +78,20 @@ CHECKS = {
             "data inside the tunnel, ProxyError and silence after a refusal, exact SOCKS greeting / credentials / command.",
             "Own parsers decode the hop; CONNECT interim replies and SOCKS reply codes 9-255 are C15's domain.",
             "3 C11"),
+    "C12": ("exploration",
+            "Hypothesis-generated multiplexing scenarios on the harness-scheduled asyncio driver with a frame-level HTTP/2 peer model (hyperframe+hpack); oracle = per-stream token echo + the peer's own open-stream accounting + deadlock detection",
+            "2-8 concurrent requests on one HTTP/2 connection; the peer interleaves HEADERS/DATA/RST_STREAM/SETTINGS(MAX_CONCURRENT_STREAMS up/down)/PING "
+            "frame by frame in scheduler-chosen order; callers read fully, partly or never. Each caller must get exactly its own stream's data, the "
+            "open-stream count at every stream-opening HEADERS must respect the ACKed limit, non-reset streams must complete.",
+            "asyncio driver; MAX_CONCURRENT_STREAMS=0 not generated; interleavings sampled.",
+            "3 C12"),
+    "C13": ("exploration",
+            "Hypothesis-generated upload/download scenarios against a peer that keeps its own window and frame-size accounting, plus an enumerated grid of sizes x policies; starvation decided at quiescence",
+            "1-3 concurrent uploads around the window boundaries with peer-chosen INITIAL_WINDOW_SIZE / MAX_FRAME_SIZE / WINDOW_UPDATE policy and "
+            "mid-upload window changes; downloads beyond the client's 2^24+65,535 credit and sequences of multi-MiB downloads. DATA frames must fit the "
+            "ACKed frame size and both windows, uploads arrive intact, no upload waits while it holds credit, downloads complete.",
+            "the peer's accounting is the reference (lenient in the client's favour while SETTINGS are un-ACKed).",
+            "3 C13"),
     "C14": ("fault_enumeration",
             "exhaustive enumeration of fault positions x kinds and of HTTP/2 peer actions (RST_STREAM, GOAWAY with every last-stream-id class) at every frame-level event, plus Hypothesis-drawn combinations; oracle = transmissions per token counted by the peers' parsers over all connections",
             "For 8 connection kinds x 3 contexts x 2 shapes x retries {0,2}: every fault-eligible op x documented fault kind; for HTTP/2 every "
